@@ -46,26 +46,90 @@ def gen_position(rng, n, tier="quick"):
                        FS(moon.interpolate(f[0], f[1], f[2], p)), {"f": f, "p": p})
 
 
+def north_knife_edge(rng, lat, naive):
+    """longitudes (adjacent floats) at which the moon's azimuth jumps between ~360 and ~0 for
+    this instant and latitude — the float modulo can round a tiny negative angle to 360.0"""
+    import math
+    f = lambda lon: moon.azimuth(Observer(lat, lon), naive)  # noqa: E731
+    grid = [(-180.0 + 7.5 * i) for i in range(49)]
+    vals = [f(x) for x in grid]
+    for (a, va), (b, vb) in zip(zip(grid, vals), zip(grid[1:], vals[1:])):
+        if abs(va - vb) > 300:
+            lo, hi = a, b
+            for _ in range(80):
+                mid = (lo + hi) / 2.0
+                if mid == lo or mid == hi:
+                    break
+                if abs(f(mid) - va) < 150:
+                    lo = mid
+                else:
+                    hi = mid
+            out = []
+            x = lo
+            for _ in range(12):
+                out.append(x)
+                x = math.nextafter(x, -math.inf)
+            x = hi
+            for _ in range(12):
+                out.append(x)
+                x = math.nextafter(x, math.inf)
+            return out
+    return []
+
+
 def gen_angles(rng, n, tier="quick"):
-    for i in range(n):
+    """moon azimuth / elevation / zenith; every instant in several spellings one after the
+    other (naive UTC, aware UTC, zones, the other fold of an ambiguous wall time)"""
+    i = 0
+    while i < n:
         lat = gens.rand_lat(rng)
         lon = gens.rand_lon(rng)
-        o = Observer(lat, lon)
         o_ord = rng.randint(gens.D1900, gens.D2100)
         naive = datetime.datetime.fromordinal(o_ord) + datetime.timedelta(
             seconds=rng.randint(0, 86399))
-        if rng.random() < 0.4:
-            dt, zl = naive, "naive"
-        else:
+        if rng.random() < 0.04:
+            for x in north_knife_edge(rng, lat, naive):
+                st, v = call(moon.azimuth, Observer(lat, x), naive)
+                i += 1
+                yield Case("moon.azimuth", "moon_azimuth %s %s %s" % (F(lat), F(x), I(wall_us(naive))),
+                           FS(v) if st == "ok" else E(v),
+                           {"latitude": lat, "longitude": x, "datetime": naive.isoformat(),
+                            "zone": "naive"}, ("knife-edge",))
+            continue
+        o = Observer(lat, lon)
+        zamb = None
+        if rng.random() < 0.08:
+            zamb, n_ = zones.ambiguous_instant(rng)
+            if zamb is not None:
+                naive = n_
+        u = naive.replace(tzinfo=UTC)
+        spell = [(naive, "naive", naive)]
+        if zamb is not None:
+            dt = u.astimezone(zamb.tzinfo)
+            dt2 = dt.replace(fold=1 - dt.fold)
+            spell.append((dt, zamb.describe(), naive))
+            spell.append((dt2, zamb.describe() + " fold", dt2.astimezone(UTC).replace(tzinfo=None)))
+        if rng.random() < 0.5:
+            spell.append((u, "UTC", naive))
+        for _ in range(rng.randint(1, 2)):
             z = zones.rand_zone(rng, naive.date())
-            dt, zl = naive.replace(tzinfo=UTC).astimezone(z.tzinfo), z.describe()
-        name = ("azimuth", "elevation", "zenith")[i % 3]
-        st, v = call(getattr(moon, name), o, dt)
-        # the model takes the UTC wall reading: the conversion itself is what D8 fixed,
-        # so it is checked here by giving the model the instant, not the fields
-        yield Case("moon." + name, "moon_%s %s %s %s" % (name, F(lat), F(lon), I(wall_us(naive))),
-                   FS(v) if st == "ok" else E(v),
-                   {"latitude": lat, "longitude": lon, "datetime": dt.isoformat(), "zone": zl})
+            dt = u.astimezone(z.tzinfo)
+            spell.append((dt, z.describe(), naive))
+            if z.iana and rng.random() < 0.4:
+                dt2 = dt.replace(fold=1 - dt.fold)
+                n2 = dt2.astimezone(UTC).replace(tzinfo=None)
+                spell.append((dt2, z.describe() + " fold", n2))
+        rng.shuffle(spell)
+        for dt, zl, as_utc in spell:
+            name = ("azimuth", "elevation", "zenith")[i % 3]
+            i += 1
+            st, v = call(getattr(moon, name), o, dt)
+            # the model takes the UTC wall reading: the conversion itself is what D8 fixed,
+            # so it is checked here by giving the model the instant, not the fields
+            yield Case("moon." + name, "moon_%s %s %s %s" % (name, F(lat), F(lon), I(wall_us(as_utc))),
+                       FS(v) if st == "ok" else E(v),
+                       {"latitude": lat, "longitude": lon, "datetime": dt.isoformat(), "zone": zl,
+                        "fold": dt.fold})
 
 
 def lon_for_end_of_utc_day(rng, lat, lon, d, idx):
